@@ -65,6 +65,7 @@ def stf_vonKarman(r, L0):
     r0 = 1
     # x**(5/6) * K_5/6(x) is 0 * inf = NaN at x = 0 (its limit makes D_vk(0) = 0): evaluate away
     # from zero and put in the exact value afterwards
+    r = np.asarray(r)  # a list compared with 0 is just False
     sep = np.where(r == 0, L0, r)
     D_vk = (0.17253 * (L0 / (r0)) ** (5. / 3.)
             * (1 - 2 * np.pi ** (5. / 6.) * ((sep) / L0) ** (5. / 6.)
